@@ -261,7 +261,18 @@ func CheckRoundTrip(c RTCase) (vs hx.Vs, nontrivial bool, classes []string) {
 		}
 	}
 	// pass-through law: input that already is a protected value is not wrapped again
-	already := w.Reg.MatchDataSignature(x) || handlerOf(fix.KindStruct).MatchDataSignature(x) || handlerOf(fix.KindBlock).MatchDataSignature(x)
+	// "already a protected value" = ONE envelope (container or bare AcraStruct/AcraBlock) spanning the whole input;
+	// an envelope followed by other bytes is ordinary data (its tail would otherwise be stored in clear)
+	already := false
+	if _, _, wf := containerAt(w, x); wf && le64(x[3:11]) == uint64(len(x)) &&
+		((x[11] == crypto.AcraStructEnvelopeID && handlerOf(fix.KindStruct).MatchDataSignature(x[12:])) ||
+			(x[11] == crypto.AcraBlockEnvelopeID && le64(x[16:24])+4 == uint64(len(x)-12) && handlerOf(fix.KindBlock).MatchDataSignature(x[12:]))) {
+		already = true // a whole container whose content has the envelope's signature
+	} else if handlerOf(fix.KindStruct).MatchDataSignature(x) {
+		already = true // AcraStruct validation is exact-length
+	} else if len(x) >= 18 && bytes.HasPrefix(x, []byte(`""""`)) && le64(x[4:12])+4 == uint64(len(x)) && handlerOf(fix.KindBlock).MatchDataSignature(x) {
+		already = true
+	}
 	if already {
 		classes = append(classes, "plain:is-envelope")
 		if perr != nil {
